@@ -566,6 +566,7 @@ func runC03(r *Run, verifDir string) {
 	// ---------------- T6 sign word decision
 	r.Rule("C03.T6", "bigIntToBytes tests the top bit of the first byte on every non-zero path (both signs)", 1)
 	c03SignWord(r)
+	c03SignDecode(r)
 
 	// ---------------- T7 padding computed from the returned bytes
 	r.Rule("C03.T7", "bigIntToBytes: the pad length is padForLen(len(b), padding) of the very slice it returns, or a whole sign word", 1)
@@ -1035,4 +1036,161 @@ func c03AppendOnly(r *Run) {
 	if n < 5 {
 		r.Unk("C03.T8", "ttlvWriter.buf/stores", token.NoPos, "%d stores to ttlvWriter.buf found, expected at least 5", n)
 	}
+}
+
+// ---------------------------------------------------------------- T9 (decode side of the sign)
+
+// c03SignDecode: bytesToBigInt treats its input as positive exactly when the top bit of the first byte is clear. The
+// branch condition is a pure function of that byte, so it is evaluated for all 256 values.
+func c03SignDecode(r *Run) {
+	p := r.P
+	r.Rule("C03.T9", "bytesToBigInt: the value is read as non-negative exactly when the top bit of its first byte is clear (condition evaluated for all 256 byte values)", 1)
+	fn := p.Func("ttlv", "", "bytesToBigInt")
+	key := "ttlv.bytesToBigInt/sign-test"
+	if fn == nil {
+		r.Unk("C03.T9", key, token.NoPos, "anchor missing")
+		return
+	}
+	isFirstByte := func(v ssa.Value) bool {
+		u, ok := v.(*ssa.UnOp)
+		if !ok || u.Op != token.MUL {
+			return false
+		}
+		ia, ok := u.X.(*ssa.IndexAddr)
+		if !ok {
+			return false
+		}
+		k, ok := constIntVal(ia.Index)
+		return ok && k == 0
+	}
+	// evaluate an integer/boolean expression over the first byte
+	var eval func(v ssa.Value, b int64, d int) (int64, bool)
+	eval = func(v ssa.Value, b int64, d int) (int64, bool) {
+		if d > 8 {
+			return 0, false
+		}
+		if isFirstByte(v) {
+			return b, true
+		}
+		if k, ok := constIntVal(v); ok {
+			return k, true
+		}
+		switch x := v.(type) {
+		case *ssa.Convert:
+			val, ok := eval(x.X, b, d+1)
+			if !ok {
+				return 0, false
+			}
+			if bt, isB := x.Type().Underlying().(*types.Basic); isB {
+				switch bt.Kind() {
+				case types.Int8:
+					return int64(int8(val)), true
+				case types.Uint8:
+					return int64(uint8(val)), true
+				}
+			}
+			return val, true
+		case *ssa.Call:
+			if id := callID(&x.Call); id.pkg == "math/bits" && (id.name == "LeadingZeros8" || id.name == "Len8") && len(x.Call.Args) == 1 {
+				val, ok := eval(x.Call.Args[0], b, d+1)
+				if !ok {
+					return 0, false
+				}
+				n := int64(0)
+				for i := 7; i >= 0 && (val>>uint(i))&1 == 0; i-- {
+					n++
+				}
+				if id.name == "Len8" {
+					return 8 - n, true
+				}
+				return n, true
+			}
+		case *ssa.BinOp:
+			l, ok1 := eval(x.X, b, d+1)
+			rr, ok2 := eval(x.Y, b, d+1)
+			if !ok1 || !ok2 {
+				return 0, false
+			}
+			bo := func(c bool) int64 {
+				if c {
+					return 1
+				}
+				return 0
+			}
+			switch x.Op {
+			case token.AND:
+				return l & rr, true
+			case token.OR:
+				return l | rr, true
+			case token.XOR:
+				return l ^ rr, true
+			case token.SHR:
+				return l >> uint(rr), true
+			case token.SHL:
+				return l << uint(rr), true
+			case token.EQL:
+				return bo(l == rr), true
+			case token.NEQ:
+				return bo(l != rr), true
+			case token.LSS:
+				return bo(l < rr), true
+			case token.LEQ:
+				return bo(l <= rr), true
+			case token.GTR:
+				return bo(l > rr), true
+			case token.GEQ:
+				return bo(l >= rr), true
+			}
+		case *ssa.UnOp:
+			if x.Op == token.NOT {
+				val, ok := eval(x.X, b, d+1)
+				return 1 - val, ok
+			}
+		}
+		return 0, false
+	}
+	// the If that separates the plain SetBytes branch (non-negative) from the two's-complement branch
+	for _, blk := range fn.Blocks {
+		iff, ok := blk.Instrs[len(blk.Instrs)-1].(*ssa.If)
+		if !ok {
+			continue
+		}
+		if _, ok := eval(iff.Cond, 0, 0); !ok {
+			continue
+		}
+		// which successor is the non-negative branch: the one that returns without negating (no Neg / Not / Sub call)
+		negates := func(b *ssa.BasicBlock) bool {
+			found := false
+			for x := range reachableFrom(b) {
+				for _, in := range x.Instrs {
+					if c, ok := in.(*ssa.Call); ok {
+						n := callID(&c.Call).name
+						if n == "Neg" || n == "Not" || n == "Sub" {
+							found = true
+						}
+					}
+					if u, ok := in.(*ssa.UnOp); ok && u.Op == token.XOR {
+						found = true
+					}
+				}
+			}
+			return found
+		}
+		posOnTrue := !negates(blk.Succs[0]) && negates(blk.Succs[1])
+		posOnFalse := negates(blk.Succs[0]) && !negates(blk.Succs[1])
+		if !posOnTrue && !posOnFalse {
+			continue
+		}
+		for b := int64(0); b < 256; b++ {
+			val, _ := eval(iff.Cond, b, 0)
+			positive := (val != 0) == posOnTrue
+			if positive != (b < 128) {
+				r.Bad("C03.T9", key, iff.Pos(), "bytesToBigInt reads a value whose first byte is 0x%02X as %s: the sign is the top bit of the first byte (0x80 and above is negative), so that value decodes to a different number than the one encoded", b, map[bool]string{true: "non-negative", false: "negative"}[positive])
+				return
+			}
+		}
+		r.OK("C03.T9", key, iff.Pos(), "the sign test equals (first byte < 0x80) for all 256 byte values")
+		return
+	}
+	r.Unk("C03.T9", key, fn.Pos(), "no branch on the first byte separating the non-negative from the two's-complement path was found")
 }
